@@ -6,6 +6,7 @@
   graphs and queues (no well-formedness assumed unless stated).
 -/
 import PonyVerif.Lemmas.SaveOrder
+import PonyVerif.Gen.FlushShape
 namespace PonyVerif.Props.C16
 open PonyVerif.Model.SaveOrder
 
@@ -236,6 +237,99 @@ theorem C16_m2m_bracket (ss : Session) (out : List Write) (h : flush ss = .ok ou
       rw [ht] at this
       obtain ⟨l1, l2, h1⟩ := List.append_of_mem this
       exact ⟨l1, l2, ws2, by rw [hsplit, h1]⟩
+
+/-! ### bridge to the source: the control skeleton re-derived from /repo on every run (Gen/FlushShape.lean) -/
+
+def statusOfName : String → Option Status
+  | "created" => some .created
+  | "modified" => some .modified
+  | "marked_to_delete" => some .markedToDelete
+  | "inserted" => some .inserted
+  | "updated" => some .updated
+  | "deleted" => some .deleted
+  | _ => none
+
+/-- the status a writer method leaves, according to the source -/
+def sourceSavedOf (name : String) : Option Status :=
+  match PonyVerif.Gen.FlushShape.saveDispatch.lookup name with
+  | some m => (PonyVerif.Gen.FlushShape.savedStatus.lookup m).bind statusOfName
+  | none => none
+
+/-- The skeleton of `SessionCache.flush`, `Entity._save_`, `Entity._save_principal_objects_` extracted from the current
+    source is the one the model mirrors:
+    (a) inside `flush_disabled`: before-save hooks, `_calc_modified_m2m`, `remove_m2m`, the `_save_` loop over
+        `cache.objects_to_save` skipping `None`, `add_m2m` - in this order (`flush = unlinks ++ saveQueue ++ links`);
+    (b) `_save_` descends into principals exactly for created / modified objects and dispatches created / modified /
+        marked_to_delete to writers that leave the statuses `savedOf` gives;
+    (c) the queue bookkeeping after the write is pop-if-last / set-None / `_save_pos_ = None` (`clearSlot`);
+    (d) `_save_principal_objects_`: fresh list or cycle test, append, all column attributes of a created object /
+        the `_wbits_` ones of a modified object, skip non-relations, recurse into values whose status is 'created'
+        (`save`, `saveRefs`, `attrsToCheck`, `inDep`); `dependent_objects` never shrinks. -/
+theorem C16_bridge_source_shape :
+    PonyVerif.Gen.FlushShape.flushPhases = ["_before_save_", "_calc_modified_m2m", "remove_m2m", "_save_", "add_m2m"]
+    ∧ PonyVerif.Gen.FlushShape.saveQueueLoop = ["cache.objects_to_save", "obj is not None"]
+    ∧ PonyVerif.Gen.FlushShape.flushEmptiesQueue = true
+    ∧ PonyVerif.Gen.FlushShape.savePrincipalFor = ["created", "modified"]
+    ∧ (∀ n ∈ ["created", "modified", "marked_to_delete"], sourceSavedOf n = (statusOfName n).map savedOf)
+    ∧ PonyVerif.Gen.FlushShape.saveDispatch.map Prod.fst = ["created", "modified", "marked_to_delete"]
+    ∧ PonyVerif.Gen.FlushShape.slotTail =
+        ["objects_to_save = cache.objects_to_save", "save_pos = obj._save_pos_",
+         "if save_pos == len(objects_to_save) - 1: ;     objects_to_save.pop() ; else: ;     objects_to_save[save_pos] = None",
+         "obj._save_pos_ = None"]
+    ∧ PonyVerif.Gen.FlushShape.principalSteps =
+        ["fresh-if:dependent_objects is None => dependent_objects = []",
+         "cycle-if:obj in dependent_objects => throw UnresolvableCyclicDependency",
+         "dependent_objects.append(obj)",
+         "status = obj._status_",
+         "attrs-if:status == 'created' => attrs = obj._attrs_with_columns_",
+         "attrs-if:status == 'modified' => attrs = obj._attrs_with_bit_(obj._attrs_with_columns_, obj._wbits_)",
+         "attrs-else:assert False",
+         "for:attr in attrs",
+         "  if:not attr.reverse => continue",
+         "  val = obj._vals_[attr]",
+         "  if:val is not None and val._status_ == 'created' => val._save_(dependent_objects)"]
+    ∧ PonyVerif.Gen.FlushShape.dependentObjectsShrinks = false := by
+  refine ⟨rfl, rfl, rfl, rfl, ?_, rfl, rfl, rfl, rfl⟩
+  intro n hn
+  simp at hn
+  rcases hn with rfl | rfl | rfl <;> rfl
+
+/-! ### the real queue bookkeeping (slots set to `None` / popped while the list is iterated) -/
+
+/-- `saveOrderS` runs the queue exactly as the code does: `for` by index over the list that `_save_` mutates
+    (`objects_to_save[save_pos] = None`, `pop()` for the last slot, `_save_pos_ = None`).  Whenever slots and
+    `_save_pos_` values agree when the flush starts (`PosInv`; no other assumption on statuses, graph or queue),
+    it emits exactly the statements of `saveOrder`, or fails with the same error: every theorem of this file about
+    `saveOrder` holds for the real bookkeeping. -/
+theorem C16_slots_refine (status : List Status) (g : Graph) (qs : Slots) (hinv : PosInv qs) :
+    (saveOrderS status g qs).map Prod.fst = saveOrder status g qs.queue := by
+  have R : SlotRel qs.queue 0 ({ status := status, out := [] }, qs) :=
+    ⟨hinv, Nat.le_refl _, fun j x _ => by simp [written]⟩
+  have h := loopS_refines g (fuelFor status) qs.queue qs.queue.length 0 _ R (by simp)
+  simp only [List.drop_zero] at h
+  unfold saveOrderS saveOrder
+  rw [← h]
+  cases loopS g (fuelFor status) qs.queue.length 0 ({ status := status, out := [] }, qs) with
+  | error e => rfl
+  | ok r => rfl
+
+/-- the queue [3, hole, 0, 1, 2] with positions; 0 → 1 → 2: saving 3 first saves 0, 1, 2 through the recursion; their
+    slots are at the end and are popped one after the other, slot 0 is set to `None`; the loop ends on the shortened list; statements and final bookkeeping: -/
+example : saveOrderS [.created, .created, .created, .modified] [[⟨1, true⟩], [⟨2, true⟩], [], [⟨0, true⟩]]
+      { queue := [some 3, none, some 0, some 1, some 2], pos := [some 2, some 3, some 4, some 0] }
+    = .ok ([.insert 2, .insert 1, .insert 0, .update 3], { queue := [none, none], pos := [none, none, none, none] }) := by rfl
+
+example : PosInv { queue := [some 3, none, some 0, some 1, some 2], pos := [some 2, some 3, some 4, some 0] } := by
+  constructor
+  · intro x p h
+    match x with
+    | 0 | 1 | 2 | 3 => simp [posOf] at h; subst h; rfl
+    | x + 4 => simp [posOf] at h
+  · intro j x h
+    match j with
+    | 0 | 2 | 3 | 4 => simp [Holds] at h; subst h; rfl
+    | 1 => simp [Holds] at h
+    | j + 5 => simp [Holds] at h
 
 /-! ### the emitted order is accepted by a backend that enforces foreign keys immediately -/
 
